@@ -27,8 +27,8 @@ def run(ctx):
              "burst<=32 faults hitting first/last/middle/index blocks; each fault is observed by the real mtbl_verify (all seeded faults, a sample + all crc-field bits of the exhaustive set) and by a forked "
              "verifying reader through iterate/get/get_prefix/get_range/seek; distinct_nontrivial = distinct files (faults per file are distinct by construction and counted in evaluations)",
         evaluations=s.get("faults", 0),
-        floors={"small.files": 3, "small.single_bit_flips_enumerated": 20000, "seeded.files": 20, "intact.files": 200, "intact.empty_tables": 1,
-                "faults.tool.double-bit.index": 50, "faults.tool.triple-bit.first": 50, "faults.tool.burst<=32.last": 50, "faults.reader.single-bit.index": 1000,
+        floors={"small.files": 3, "small.single_bit_flips_enumerated": 10000, "seeded.files": 20, "intact.files": 200, "intact.empty_tables": 1,
+                "faults.tool.double-bit.index": 50, "faults.tool.triple-bit.first": 50, "faults.tool.burst<=32.last": 50, "faults.reader.single-bit.index": 300,
                 "detected.reader.get.process-stopped": 500, "detected.reader.get_range.process-stopped": 500, "detected.verify_tool.reports-failed": 500,
                 "detected.verify_tool.abort-at-open": 50},
         exhaustive=False,
